@@ -79,9 +79,11 @@ Definition trig_empty (q : rtrig) : bool :=
   | _, _, _ => false
   end.
 Fixpoint height (n : call) : nat := match n with Call _ _ _ ks => S (fold_right Nat.max 0%nat (map height ks)) end.
+Definition loc_free (c : cfg) (l : list N) : bool :=
+  negb (lmode_in c) && forallb (fun f => match loc_of c f with None => true | Some _ => false end) l.
 Definition range_only (k : case) : bool :=
   let c := k_cfg k in
-  forallb (fun f => trig_empty (trig_of c f)) (fns k) && (threshold c =? 0)%N && negb (caller_filter c)
+  loc_free c (fns k) && forallb (fun f => trig_empty (trig_of c f)) (fns k) && (threshold c =? 0)%N && negb (caller_filter c)
   && plt_free c (fns k) && forallb (fun n => Z.of_nat (height n) <=? gdepth c) (k_forest k).
 Definition in_window (c : cfg) (t : N) : bool :=
   ((range_start c =? 0) || (range_start c <=? t))%N && ((range_stop c =? 0) || (t <=? range_stop c))%N.
@@ -248,6 +250,6 @@ Definition ok_e2e (k : ecase) : bool :=
 Definition fheightZ (f : list call) : Z := Z.of_nat (fold_right Nat.max 0%nat (map height f)).
 Definition ok_switch (k : case) : bool :=
   let c := k_cfg k in
-  negb (no_range c && sw_class c (fns k) (fheightZ (k_forest k)))
+  negb (no_range c && loc_free c (fns k) && sw_class c (fns k) (fheightZ (k_forest k)))
   || (list_eqb n_eqb (select_sw c (k_forest k)) (map nt_n (o_chrome k))
       && (negb (plt_free c (fns k)) || list_eqb n_eqb (select_sw c (k_forest k)) (map nd_n (o_replay k)))).
